@@ -18,7 +18,11 @@ LIB_FUNCS = {
 }
 
 
+WORLD = None
+
+
 def build_world():
+    global WORLD
     idx = SourceIndex()
     for m in REPO_MODULES:
         idx.add_module(importlib.import_module(m))
@@ -32,8 +36,10 @@ def build_world():
             w.ignore_calls_on.append(lg)
     from stubs import builtins_
     builtins_.install(w)
-    from stubs import shapes
+    from stubs import shapes, cfdp
     shapes.install(w)
+    cfdp.install(w)
+    WORLD = w
     import contracts
     contracts.install(w)
     return w
